@@ -258,6 +258,17 @@ func (e *Engine) callFunc(fr *frame, ins ssa.Instruction, fn *ssa.Function, args
 			}
 		}
 		return Sc{e.sc.define("printed", SBool, t), SBool}, reach
+	case "vcLoggedError":
+		if e.calleeLogFlag != "" {
+			return Sc{e.calleeLogFlag, SBool}, reach
+		}
+		t := "false"
+		for _, ev := range e.ghostEvents {
+			if ev[0] == "logerror" {
+				t = or(t, ev[1])
+			}
+		}
+		return Sc{e.sc.define("logged", SBool, t), SBool}, reach
 	case "implies":
 		if fn.Pkg != nil && strings.HasPrefix(fn.Pkg.Pkg.Path(), repoModule) {
 			return Sc{implies(e.scalar(args[0]).T, e.scalar(args[1]).T), SBool}, reach
@@ -458,6 +469,15 @@ func (e *Engine) callByContract(fr *frame, ins ssa.Instruction, fn *ssa.Function
 		resList = []Val{res}
 	}
 	pre := heap // callee post-state == caller heap after havoc
+	// vcLoggedError() inside the callee's postconditions speaks about the callee's diagnostics:
+	// a fresh flag, recorded afterwards as a diagnostic event of the caller
+	calleeLogged := e.sc.declare("callee_logged", SBool)
+	saveFlag := e.calleeLogFlag
+	e.calleeLogFlag = calleeLogged
+	defer func() {
+		e.calleeLogFlag = saveFlag
+		e.ghostEvent("logerror", and(reach, calleeLogged), "")
+	}()
 	for _, cl := range c.byKind("ensures") {
 		pf := e.w.Preds[c.Pkg+"."+cl.Pred]
 		all := append(append([]Val{}, args...), resList...)
@@ -1154,9 +1174,11 @@ func (e *Engine) cannotInline1(fn *ssa.Function, path map[*ssa.Function]bool) st
 			case "forall", "exists", "forallKeys", "forallStrings", "old", "implies", "vcSame", "vcSortPerm":
 				continue // ghost intrinsics: interpreted by the engine, their Go bodies serve the replay only
 			}
-			if c := e.w.contractFor(f); c != nil && len(c.byKind("ensures")) > 0 {
+			if c := e.w.contractFor(f); c != nil && len(c.byKind("ensures")) > 0 && !c.Options["trusted"] {
 				continue
 			}
+			// (a trusted contract - e.g. on the operand parser - serves the functions under contract
+			// that call it directly; it does not make other callers inlinable)
 			name := fullName(f)
 			if strings.HasPrefix(name, "github.com/samber/lo.") {
 				switch name {
